@@ -310,8 +310,22 @@ int reader_init_block_reader(struct reftable_reader *r, struct block_reader *br,
 		}
 	}
 
-	return block_reader_init(br, &block, header_off, r->block_size,
-				 hash_size(r->hash_id));
+	while (1) {
+		uint32_t len = block.len;
+		err = block_reader_init(br, &block, header_off, r->block_size,
+					hash_size(r->hash_id));
+		if (err != REFTABLE_ZLIB_ERROR || block_typ != BLOCK_TYPE_LOG ||
+		    next_off + len >= r->size)
+			break;
+
+		/* The compressed log block is longer than what we read
+		   (incompressible data). */
+		reftable_block_done(&block);
+		err = reader_get_block(r, &block, next_off, 2 * len);
+		if (err < 0)
+			break;
+	}
+	return err;
 }
 
 static int table_iter_next_block(struct table_iter *dest,
